@@ -543,11 +543,16 @@ class ASTListener(ModelicaListener):
             if import_list is not None:
                 package_name = import_clause.components.pop()
                 # Append list of names to package_name to get fully qualified name(s)
-                # Skip the comma separators in import_list.children
-                for ident in import_list.children[::2]:
-                    qualified_name = package_name.concatenate(
-                        package_name.from_string(ident.getText())
-                    )
+                # The grammar rule is recursive (IDENT (',' import_list)*), so
+                # the names after the first one sit in nested import_lists.
+                idents = []
+                pending = [import_list]
+                while pending:
+                    node = pending.pop(0)
+                    idents.append(node.IDENT().getText())
+                    pending = node.import_list() + pending
+                for ident in idents:
+                    qualified_name = package_name.concatenate(package_name.from_string(ident))
                     import_clause.components.append(qualified_name)
             elif ctx.getChildCount() > 3:
                 import_clause.unqualified = True
